@@ -242,7 +242,25 @@ func workerMain() {
 		}
 		// time proportional to the input: processor time of this process (not wall-clock time, which
 		// depends on what else the machine is doing) against 30 microseconds per input byte plus 0.4 s
-		if cpu := cpu1 - cpu0; outcome < 2 && cpu > time.Duration(len(b))*30*time.Microsecond+400*time.Millisecond {
+		cpu, budget := cpu1-cpu0, time.Duration(len(b))*30*time.Microsecond+400*time.Millisecond
+		// the processor time is that of the whole process, the collector's background work on what
+		// earlier inputs left behind included: a decode over the budget is measured again (twice at
+		// most, after a completed collection) and the smallest measurement counts - what the decoder
+		// itself costs is the same every time
+		for try := 0; try < 2 && outcome < 2 && cpu > budget; try++ {
+			runtime.GC()
+			again := make([]byte, len(b))
+			copy(again, b)
+			c0 := cpuTime()
+			func() {
+				defer func() { recover() }()
+				decoders[parts[0]](again)
+			}()
+			if c := cpuTime() - c0; c < cpu {
+				cpu = c
+			}
+		}
+		if outcome < 2 && cpu > budget {
 			outcome, extra = 3, fmt.Sprintf("cpu_%d_ms_for_%d_bytes", cpu.Milliseconds(), len(b))
 		}
 		fmt.Fprintf(out, "%d %s %s %d %s\n", outcome, hex.EncodeToString(re)+".", extra, lenv, chash)
